@@ -350,11 +350,15 @@ func runExp(t *rapid.T, lv *level, name string) {
 	xv, xi := lv.genElem(t, "x")
 	var k *big.Int
 	var kc string
+	var extra []string
 	if uniP(t, 5, "kgroup") == 0 && lv.deg() <= 6 {
 		// exponents tied to the group structure: |F*|, |F*|±1, p, -|F*|
 		ord := new(big.Int).Sub(lv.N.Order(), big.NewInt(1))
 		k = []*big.Int{ord, new(big.Int).Add(ord, big.NewInt(1)), new(big.Int).Sub(ord, big.NewInt(1)), new(big.Int).Neg(ord), lv.fam.p}[uniP(t, 4, "kg")]
 		kc = "group_order"
+	} else if uniP(t, 3, "kword") == 0 {
+		k, kc = wordExponent(t, "k")
+		extra = kwClasses(kc)
 	} else {
 		k, kc = gen.Int(t, lv.expModulus(), lv.expBits(), "k")
 	}
@@ -364,7 +368,7 @@ func runExp(t *rapid.T, lv *level, name string) {
 	want := ref.Exp(lv.F(), xv, k)
 	lv.check(t, fmt.Sprintf("Exp(%s, %s)", ref.String(xv), k), z, want)
 	lv.check(t, "Exp: operand after the call", x, xv)
-	record(lv, name, key(xv, k), true, "x:"+xi.class, "k:"+kc)
+	record(lv, name, key(xv, k), true, append([]string{"x:" + xi.class, "k:" + kc}, extra...)...)
 }
 
 func runHalve(t *rapid.T, lv *level, name string) {
